@@ -40,7 +40,7 @@ void run(const char* type) {
             if (v != d) viol("value", dcls << 4, 0, "op=value,d=" + hex(d), hex(v), hex(d));
         }
         if (bits == 8) { ns.clear(); for (unsigned n = 0; n < 256; ++n) ns.push_back((T)n); }
-        else if (bits == 16 && big) { ns.clear(); for (unsigned n = 0; n < 65536; ++n) ns.push_back((T)n); }
+        else if (bits == 16 && opt().sweep) { ns.clear(); for (unsigned n = 0; n < 65536; ++n) ns.push_back((T)n); }
         else numerators_for<T>(d, r, bits == 16 ? 24 : (big ? 200 : 40), ns);
         for (T n : ns) {
             if (!den_domain(n, d)) continue;
